@@ -156,7 +156,11 @@ class PEval:
     # total, pure operations on constant text (no user code involved)
     _STR_METHODS = ("startswith", "endswith", "rstrip", "lstrip", "strip",
                     "lower", "upper", "replace", "find", "rfind", "index",
-                    "count", "format")
+                    "count", "format", "casefold", "title", "capitalize",
+                    "swapcase", "expandtabs", "zfill", "center", "ljust",
+                    "rjust", "isspace", "isdigit", "isdecimal", "isnumeric",
+                    "isalpha", "isalnum", "isupper", "islower",
+                    "removeprefix", "removesuffix")
 
     def _fold_text(self, expr: ast.AST, env: Env) -> Any:
         if isinstance(expr, ast.Call) and isinstance(expr.func, ast.Name) \
@@ -199,6 +203,16 @@ class PEval:
             a = self.value(expr.args[0], env)
             if isinstance(a, Const) and isinstance(a.value, str):
                 return Const(len(a.value))
+            return None
+        if isinstance(expr, ast.Call) and \
+                src(expr.func) in ("unicodedata.normalize", "normalize") and \
+                len(expr.args) == 2 and not expr.keywords:
+            a, b = self.value(expr.args[0], env), self.value(expr.args[1], env)
+            if isinstance(a, Const) and isinstance(b, Const) and \
+                    isinstance(b.value, str) and \
+                    a.value in ("NFC", "NFD", "NFKC", "NFKD"):
+                import unicodedata
+                return Const(unicodedata.normalize(a.value, b.value))
             return None
         # split / join / list / map(lambda) over constant text
         if isinstance(expr, ast.Call) and \
